@@ -234,6 +234,11 @@ class EndpointResponseHandlerGenerator:
 
             base_type = inner_type.strip()
 
+        # date-time / date / time bodies arrive as JSON strings: the converter turns them into the annotated type
+        # (a cast() would hand the caller a str where the signature promises a datetime)
+        if base_type.replace(" | None", "").strip() in {"datetime", "date", "time"}:
+            return True
+
         # Skip primitive types and built-ins (both uppercase and lowercase)
         if base_type in {
             "str",
@@ -258,7 +263,10 @@ class EndpointResponseHandlerGenerator:
 
         # Check if this is a primitive type alias - these should use cast()
         if self._is_type_alias_to_primitive(type_name):
-            return False
+            # ... unless the alias stands for a converted type (Timestamp = datetime, Id = UUID): see above
+            alias_schema = self.schemas.get(type_name.split("[")[0])
+            alias_is_string = getattr(alias_schema, "type", None) == "string"
+            return alias_is_string and getattr(alias_schema, "format", None) in {"date-time", "date", "time", "uuid"}
 
         # NEW LOGIC: For array type aliases, check if the item type needs deserialisation
         if self._is_type_alias_to_array(type_name):
